@@ -879,7 +879,7 @@ class FinishedGen(Gen):
         if r < 0.5:
             return {"set": "cond", "v": rng.choice(c06.COND_MEMBERS + [0, 0, 11, 11])}
         if r < 0.5 + big:
-            return {"set": "responses", "v": {"fill": BIG_RESP, "n": rng.choice([250, 267, 268, 300, 2000])}}
+            return {"set": "responses", "v": {"fill": BIG_RESP, "n": rng.choice([250, 267, 268, 300])}}
         return {"set": "responses", "v": rng.choice([None, [], [c6v.rand_resp(rng) for _ in range(rng.randint(1, 4))]])}
 
     def pool(self, rng, a):
@@ -920,7 +920,7 @@ class MetadataGen(Gen):
         if r < 0.6:
             return {"set": "dst", "v": _rand_name(rng) if rng.random() > big else hx(b"y" * 300)}
         if r < 0.6 + big:
-            return {"set": "options", "v": {"fill": BIG_OPT, "n": rng.choice([253, 254, 255, 256, 400])}}
+            return {"set": "options", "v": {"fill": BIG_OPT, "n": rng.choice([253, 254, 255, 256, 300])}}
         return {"set": "options", "v": _rand_opts(rng)}
 
     def pool(self, rng, a):
@@ -1001,7 +1001,7 @@ class C11(Prop):
     def cases(self, rng: random.Random, tier: str) -> Iterator[Case]:
         thorough = tier == "thorough"
         max_len = 40 if thorough else 12
-        n_rand = 120 if thorough else 14
+        n_rand = 100 if thorough else 10
         ex_len = 4 if thorough else 3
         for name, g in GENS.items():
             fixes = fixes_for(name, thorough)
@@ -1029,7 +1029,7 @@ class C11(Prop):
                 for i in range(n_rand):
                     a = g.init(rng, **fx)
                     n = rng.randint(1, max_len)
-                    big = rng.choice([0.0, 0.05, 0.15] if thorough else [0.0, 0.0, 0.0, 0.1])
+                    big = rng.choice([0.0, 0.05, 0.12] if thorough else [0.0, 0.0, 0.0, 0.08])
                     yield seq_case(name, a, [g.step(rng, a, big) for _ in range(n)], "random")
         # 4. caller inputs: all 512 header configurations through the three modelled constructors
         for kind in ("nak", "keepalive", "filedata", "eof", "finished", "metadata"):
